@@ -324,6 +324,56 @@ def run(ck: Check):
                     t.exception()
             net.close()
     dist["connect_scenarios"] = len(conn_lines)
+    # notify data: after a started notify session for (a, h), the data callback gets exactly the data of the notify-data
+    # messages for (a, h), until stop_notify() / remove_callback()
+    n_notify = 0
+    for case in range(60 if thorough else 16):
+        net, client, conn, _ = simnet.established(keepalive=100000.0)
+        loop = net.loop
+        base = {k: len(v) for k, v in conn._message_handlers.items()}
+        a, h = rng.choice([A, B]), rng.choice([1, 2])
+        got = []
+        t = tasks._PyTask(client.bluetooth_gatt_start_notify(a, h, lambda hh, d: got.append(int(bytes(d)))), loop=loop, eager_start=True)
+        loop.run_idle()
+        net.send(pb.BluetoothGATTNotifyResponse(address=a, handle=h))
+        loop.run_idle()
+        stop, remove = t.result()
+        evs, removed = [], False
+        for i in range(rng.randrange(3, 10)):
+            if not removed and rng.random() < 0.15:
+                if rng.random() < 0.5:
+                    remove()
+                else:
+                    tasks._PyTask(stop(), loop=loop, eager_start=True)
+                    loop.run_idle()
+                removed = True
+                evs.append("rm")
+                continue
+            ma, mh = rng.choice([A, B]), rng.choice([1, 2])
+            net.send(pb.BluetoothGATTNotifyDataResponse(address=ma, handle=mh, data=str(i).encode()))
+            loop.run_idle()
+            evs.append(f"d:{ma}:{mh}:{i}")
+        want, reg = [], True
+        for e in evs:
+            if e == "rm":
+                reg = False
+            else:
+                _, ma, mh, i = e.split(":")
+                if reg and int(ma) == a and int(mh) == h:
+                    want.append(int(i))
+        if got != want:
+            ck.violation("c16:notify-data", f"notify session for ({a}, {h}), events {evs}: data callback got {got}, the messages for its "
+                         f"address and handle while registered are {want}", {"address": a, "handle": h, "events": evs})
+        if not removed:
+            remove()
+        extra, waiters, timers = leftovers(conn, loop, base)
+        if extra or waiters or timers:
+            ck.violation("c16:notify-leak", f"notify session for ({a}, {h}) released, events {evs}: handlers left {extra}", {"events": evs})
+        conn_lines.append(f"ble.notify {a} {h} " + " ".join(evs))
+        conn_impl.append(" ".join(str(x) for x in got))
+        n_notify += 1
+        net.close()
+    dist["notify_sessions"] = n_notify
     # ---- model vs implementation
     live_lines = [l for l in lines if l is not None] + conn_lines
     live_impl = [o for l, o in zip(lines, impl) if l is not None] + conn_impl
